@@ -604,6 +604,20 @@ func (c *Case) loadFrom(fresh *trie.SlimTrie) (st *trie.SlimTrie, err error) {
 			return nil
 		})
 		return st, err
+	case "over":
+		// load into an instance that already holds ANOTHER trie and has been used
+		err = guard("Marshal/Unmarshal over a used instance", func() error {
+			b, e := fresh.Marshal()
+			if e != nil {
+				return viol("marshal", "Marshal failed: %v", e)
+			}
+			st = usedInstance(c)
+			if e := st.Unmarshal(b); e != nil {
+				return viol("unmarshal", "Unmarshal of own bytes into a used instance failed: %v", e)
+			}
+			return nil
+		})
+		return st, err
 	case "proto":
 		err = guard("proto.Marshal/Unmarshal", func() error {
 			b, e := proto.Marshal(fresh)
@@ -641,6 +655,44 @@ func safeLegacyStream(c *Case, layout string) (b []byte, err error) {
 		}
 	}()
 	return legacyStream(c, layout)
+}
+
+// usedInstance returns a trie (same encoder as c) that holds other data and
+// whose read APIs have all been called at least once.
+func usedInstance(c *Case) *trie.SlimTrie {
+	keys := []string{"", "\x00", "a", "ab", "abc", "abd", "b", "\xff", "\xff\xff"}
+	oc := &Case{Keys: hexes(keys), Enc: c.Enc, HasVals: true, Opt: OptSpec{1, 0, 0, 2}}
+	for i := range keys {
+		oc.Vals = append(oc.Vals, Hex(leBytes(uint64(i+1)*0x0101010101010101, 8)))
+	}
+	st, err := oc.build()
+	if err != nil {
+		panic(fmt.Sprintf("harness: cannot build the used instance: %v", err))
+	}
+	te := typedEnc(oc)
+	for _, k := range append(keys, "zz", "abcd") {
+		st.Get(k)
+		st.GetID(k)
+		st.RangeGet(k)
+		st.Search(k)
+		switch te {
+		case "I8":
+			st.GetI8(k)
+		case "I16":
+			st.GetI16(k)
+		case "I32":
+			st.GetI32(k)
+		case "I64":
+			st.GetI64(k)
+		}
+	}
+	st.ScanFrom("", true, true, func(k, v []byte) bool { return true })
+	it := st.NewIter("a", false, true)
+	it()
+	st.Stat()
+	_ = st.String()
+	st.Marshal()
+	return st
 }
 
 func valEq(a, b interface{}) bool {
